@@ -476,7 +476,8 @@ fn enum_init_block_inner(members: &mut Peekable<Iter<VariantData>>, input: &Enum
 }
 
 fn variant_destruct_block(input: &Struct, ctx: &ImplContext) -> TokenStream {
-    let (mut idents, type_hint) = match (input.named_fields, ctx.kind, ctx.struct_attr.type_hint) {
+    let mut rest: Option<TokenStream> = None;
+    let (mut idents, type_hint): (Vec<TokenStream>, TypeHint) = match (input.named_fields, ctx.kind, ctx.struct_attr.type_hint) {
         (true, Kind::OwnedInto | Kind::RefInto | Kind::OwnedIntoExisting | Kind::RefIntoExisting, _) | 
         (true, _, TypeHint::Struct | TypeHint::Unspecified) | 
         (false, Kind::FromOwned | Kind::FromRef, TypeHint::Struct) => (
@@ -489,6 +490,11 @@ fn variant_destruct_block(input: &Struct, ctx: &ImplContext) -> TokenStream {
                         quote!(#ident ,)
                     } else if let Some(attr) = attr {
                         let ident = attr.get_field_name_or(&x.member);
+                        // a member of a tuple variant whose instruction has only an expression reads no field of the counterpart
+                        if !input.named_fields && matches!(ident, Unnamed(_)) {
+                            rest = Some(quote!(..));
+                            return TokenStream::new();
+                        }
                         quote!(#ident ,)
                     } else { unreachable!("3") }
                 }).collect(),
@@ -517,7 +523,7 @@ fn variant_destruct_block(input: &Struct, ctx: &ImplContext) -> TokenStream {
     }
 
     match type_hint {
-        TypeHint::Struct => quote!({#(#idents)*}),
+        TypeHint::Struct => quote!({#(#idents)* #rest}),
         TypeHint::Tuple => quote!((#(#idents)*)),
         TypeHint::Unit => TokenStream::new(),
         _ => unreachable!("4"),
